@@ -153,3 +153,43 @@ func C12_SharedFailing() {
 	verif.Assert(e0 != nil && errText(e0) == errText(e1) && errText(e0) == errText(e2), "same runtime error from concurrent executions")
 	verif.Reach("returned")
 }
+
+type c12A struct {
+	Name string
+	X    int `bcl:"ex"`
+	Y    string
+}
+
+type c12B struct {
+	Name  string
+	P     float64
+	Inner struct {
+		Q int `bcl:"qu"`
+	}
+}
+
+// C12_TwoUnmarshals: two independent Unmarshal calls (parse, execute, Bind
+// through reflection into different struct types) run concurrently: results
+// as sequential, no race on the library's own state.
+func C12_TwoUnmarshals() {
+	srcA := "def c12a \"a\" {\n ex = 1001\n y = \"s\"\n}\nbind c12a -> struct\n"
+	srcB := "def c12b \"b\" {\n p = 2.5\n def inner {\n  qu = 7\n }\n}\nbind c12b -> struct\n"
+	var a c12A
+	var b c12B
+	var ea, eb error
+	done := make(chan struct{})
+	go func() {
+		ea = bcl.Unmarshal([]byte(srcA), &a, bcl.OptOutput(&lockedWriter{}), bcl.OptLogger(&lockedWriter{}))
+		done <- struct{}{}
+	}()
+	go func() {
+		eb = bcl.Unmarshal([]byte(srcB), &b, bcl.OptOutput(&lockedWriter{}), bcl.OptLogger(&lockedWriter{}))
+		done <- struct{}{}
+	}()
+	<-done
+	<-done
+	verif.Assert(ea == nil && eb == nil, "no error")
+	verif.Assert(a.Name == "a" && a.X == 1001 && a.Y == "s", "first result as sequential")
+	verif.Assert(b.Name == "b" && b.P == 2.5 && b.Inner.Q == 7, "second result as sequential")
+	verif.Reach("returned")
+}
